@@ -46,7 +46,13 @@ POOL = [
     u"# comment", u"#", u"# language: en", u"# language: de", u"#language:fr", u"# language: zz", u"# language:",
     u"  # language: ja", u"", u"   ", u"free text", u"= description", u"Given", u"Scenario", u"Feature", u":", u"\t",
     u"Scenario Outline:", u"Examples: | a |", u"Given a step:", u"When | pipe", u" ", u"x\x0by",
+    # text that is harmful inside a message template (str.format / % formatting of user text)
+    u"And {name} orphan {}", u"But {0} %s %(x)s }{", u"Und {é} %", u"Feature: {f} %d", u"free {text} %s", u"@t{a}g %s",
+    u"| {a} | %s |", u"Examples: {e} %(n)s", u"Background: {b}", u"Given {x",
 ]
+SPICES = [u"", u" {name}", u" {}", u" {0} %s", u" %(x)s %", u" }{", u" é{ü}", u" {0!r:>{1}}", u" {"]
+SPICED_FAULTS = ("second-feature-after-steps", "free-text-after-steps", "second-background-after-steps",
+                 "examples-outside-outline", "and-without-predecessor")
 
 
 def call_entry(entry, text, language=None):
@@ -311,6 +317,9 @@ def check_catalogue(res, case):
     for idx, (fault, pos, new_line, expect) in enumerate(catalogue(feat, text, facts)):
         if only is not None and idx != only:
             continue
+        if fault in SPICED_FAULTS:
+            # user text ends up in error messages: braces / percent signs must not matter
+            new_line = new_line + SPICES[(case.get("spice") or 0) % len(SPICES)]
         mlines = lines[:pos] + [new_line] + lines[pos:]
         mtext = u"\n".join(mlines) + u"\n"
         before = len(res.violations)
@@ -327,6 +336,8 @@ def check_catalogue(res, case):
         count += 1
     res.evals = max(1, count)
     res.nontrivial = count > 2
+    if (case.get("spice") or 0) % len(SPICES):
+        res.label("fault-text:braces/percent")
 
 
 # ---------------------------------------------------------------------------
@@ -356,7 +367,8 @@ def explore(rec):
     rec.hyp("mutations", st.builds(lambda f, ins: {"kind": "mutation", "feature": f, "inserts": ins},
                                    c04.feature_st(), st.lists(st.integers(0, len(POOL) - 1), min_size=2, max_size=4)),
             120 if quick else 3000)
-    rec.hyp("catalogue", c04.feature_st().map(lambda f: {"kind": "catalogue", "feature": f}),
+    rec.hyp("catalogue", st.builds(lambda f, sp: {"kind": "catalogue", "feature": f, "spice": sp},
+                                   c04.feature_st(), st.integers(0, len(SPICES) - 1)),
             700 if quick else 15000)
     if not quick:
         run_atheris(rec)
@@ -376,7 +388,8 @@ def required_labels(tier):
     faults = ["second-feature-after-steps", "free-text-after-steps", "second-background-after-steps",
               "examples-outside-outline", "table-row-cell-count", "and-without-predecessor", "malformed-tag",
               "docstring-before-step", "table-before-step"]
-    return ["soup", "structured-soup", "pool-single", "mutations", "raises-ParserError", "accepted-by-all"] + \
+    return ["soup", "structured-soup", "pool-single", "mutations", "raises-ParserError", "accepted-by-all",
+            "fault-text:braces/percent"] + \
            ["fault:" + f for f in faults]
 
 
